@@ -46,6 +46,8 @@ class StrOps:
             return u
         if isinstance(v, SV) and v.ty == ASTR:
             return v.t
+        if isinstance(v, SV) and v.ty.name == "Opt" and v.ty.args[0] == ASTR:
+            return self.to_astr(self.ctx.unopt(v, "TypeError", "None-as-str"))
         raise Unsupported(f"cannot view {v!r} as array string")
 
     def to_native(self, v):
@@ -55,6 +57,8 @@ class StrOps:
             return v.t
         if isinstance(v, Char):
             return z3.StrFromCode(v.c)
+        if isinstance(v, SV) and v.ty.name == "Opt" and v.ty.args[0] == STR:
+            return self.to_native(self.ctx.unopt(v, "TypeError", "None-as-str"))
         raise Unsupported(f"cannot view {v!r} as native string")
 
     def mode_of(self, *vs):
